@@ -105,7 +105,12 @@ mod verif_rp_c10_session {
         let _ = alice_writer.shutdown().await;
         let joined = tokio::time::timeout(Duration::from_secs(10), task).await;
         let joined = match joined { Ok(j) => j, Err(_) => panic!("WITNESS {what}: still waiting after 10 s") };
-        let (res, _ns, _outcome) = match joined { Ok(r) => r, Err(e) => panic!("WITNESS {what}: panicked ({e})") };
+        let (res, ns, _outcome) = match joined { Ok(r) => r, Err(e) => panic!("WITNESS {what}: panicked ({e})") };
+        // "the accepting side can always report its outcome": once a request was allowed, the document it was for is known, whatever happens next
+        if cb == Cb::Allow && !(cut && seq.len() == 1) {
+            let want = match seq.first() { Some(Fr::InitFp) | Some(Fr::InitEntry) => Some(ctx.ns.id()), Some(Fr::InitUnknown) => Some(ctx.other.id()), _ => None };
+            if want.is_some() { assert_eq!(ns, want, "WITNESS {what}: the request was allowed, but the acceptor cannot name the document of the session (it reports {ns:?})"); }
+        }
         // what the acceptor wrote (its writer is dropped with the finished task): a declined request must have been answered with an Abort frame
         let mut written = vec![];
         let _ = tokio::time::timeout(Duration::from_secs(10), alice_reader.read_to_end(&mut written)).await;
